@@ -559,7 +559,8 @@ def _menus():
     from jumanji.environments.routing.robot_warehouse.generator import RandomGenerator as RWGen
     for sr, sc, ch, a, sens, q, t in ((1, 3, 2, 1, 1, 1, 7), (1, 3, 3, 2, 1, 2, 500), (1, 3, 3, 3, 2, 2, 3),
                                       (2, 3, 8, 4, 1, 8, 500), (1, 3, 3, 2, 1, 2, 2), (2, 3, 2, 2, 2, 2, 1),
-                                      (1, 3, 3, 2, 1, 2, 40), (2, 3, 1, 2, 1, 2, 20)):
+                                      (1, 3, 3, 2, 1, 2, 40), (2, 3, 1, 2, 1, 2, 20),
+                                      (1, 3, 2, 4, 1, 2, 60)):     # crowded: four robots in the smallest warehouse
         add("RobotWarehouse", f"s{sr}x{sc}h{ch}a{a}r{sens}q{q}t{t}",
             lambda sr=sr, sc=sc, ch=ch, a=a, sens=sens, q=q, t=t, time_limit=None, **k: E.RobotWarehouse(
                 generator=RWGen(shelf_rows=sr, shelf_columns=sc, column_height=ch, num_agents=a,
